@@ -12,7 +12,9 @@ def configs(ck, nsched):
     while len(cfg) < nsched:
         T, n = shapes[i % len(shapes)]
         pad = (i // len(shapes)) % 2 == 0
-        cfg.append((T, pad, pipe_input(r, n, pad), r.randrange(1 << 30), 1 if i % 5 == 4 else 0, 1 if i % 3 == 2 else 0))
+        # every seventh run with injected spurious wake-ups (policy code 10*percent + policy): a wait that does not re-test its
+        # predicate lets a thread through while the buffer still belongs to the other side
+        cfg.append((T, pad, pipe_input(r, n, pad), r.randrange(1 << 30), 1 if i % 5 == 4 else 0, (1 if i % 3 == 2 else 0) + (r.choice([200, 500]) if i % 7 == 3 else 0)))
         i += 1
     # long runs: more than 256 / 512 chunks with worker counts that do not divide a power of two (a chunk or slot counter kept in a
     # narrow integer wraps there and shifts every later chunk to another worker)
